@@ -3,22 +3,29 @@ package main
 // C04: Kill / CleanupClients against real vplugin processes with scripted shutdown behaviour.
 
 import (
+	"context"
+	"errors"
 	"fmt"
+	"io"
 	"os"
+	"os/exec"
 	"path/filepath"
 	"strconv"
+	"strings"
 	"sync"
 	"syscall"
 	"time"
 
+	hclog "github.com/hashicorp/go-hclog"
 	plugin "github.com/hashicorp/go-plugin"
+	"github.com/hashicorp/go-plugin/runner"
 	"verif/harness/hk"
 	"verif/harness/sx"
 )
 
 type killCase struct {
 	Proto     string `json:"proto"`
-	Behaviour string `json:"behaviour"` // exit | delay | ignore | frozen | dead | badhandshake | neverstarted
+	Behaviour string `json:"behaviour"` // exit | delay | ignore | frozen | dead | badhandshake | neverstarted | launchfails | runnerfails
 	Launch    string `json:"launch"`    // cmd | reattach
 	Pattern   string `json:"pattern"`   // single | repeat3 | concurrent4 | cleanup
 	Mux       bool   `json:"mux"`
@@ -26,13 +33,15 @@ type killCase struct {
 
 func init() { families["kill"] = runKill }
 
-var behCode = map[string]int{"exit": 0, "delay": 1, "ignore": 2, "frozen": 3, "dead": 4, "badhandshake": 5, "neverstarted": 6}
+// launchfails / runnerfails: Start was called but no process ever ran (exec error; a custom runner whose Start fails):
+// no process, but a runner is recorded
+var behCode = map[string]int{"exit": 0, "delay": 1, "ignore": 2, "frozen": 3, "dead": 4, "badhandshake": 5, "neverstarted": 6, "launchfails": 7, "runnerfails": 7}
 
 func genKill(o opts) []killCase {
 	r := hk.Rng(o.seed + 101)
 	var cs []killCase
 	for _, pr := range []string{"netrpc", "grpc"} {
-		for _, b := range []string{"exit", "delay", "ignore", "frozen", "dead", "badhandshake", "neverstarted"} {
+		for _, b := range []string{"exit", "delay", "ignore", "frozen", "dead", "badhandshake", "neverstarted", "launchfails", "runnerfails"} {
 			if b == "frozen" && pr == "netrpc" && o.tier != "thorough" {
 				continue // bounded only by yamux's keep-alive (about 40 s): thorough tier
 			}
@@ -84,9 +93,21 @@ func runOneKill(c killCase, tmpBase string, idx int) (sx.V, sx.V) {
 		pc["pre_output"] = "this is a banner, not a handshake\n" // Start fails on the first line; the real line follows it
 	}
 	cfg := vpClientConfig(vpOpts{Proto: c.Proto, Mux: c.Mux, Plugin: pc, Managed: c.Pattern == "cleanup"})
+	switch c.Behaviour {
+	case "launchfails":
+		cfg.Cmd = exec.Command(filepath.Join(tmpBase, "no-such-plugin-binary"))
+	case "runnerfails":
+		cfg.Cmd = nil
+		cfg.RunnerFunc = func(hclog.Logger, *exec.Cmd, string) (runner.Runner, error) { return failingRunner{}, nil }
+	}
 	cl := plugin.NewClient(cfg)
 	pid := 0
-	if c.Behaviour != "neverstarted" {
+	if c.Behaviour == "launchfails" || c.Behaviour == "runnerfails" {
+		if _, err := cl.Start(); err == nil {
+			cl.Kill()
+			return in, sx.L{sx.I(0), sx.I(0), sx.I(0), sx.I(0), sx.I(0)}
+		}
+	} else if c.Behaviour != "neverstarted" {
 		_, err := cl.Client()
 		pid, _ = strconv.Atoi(cl.ID())
 		if c.Behaviour == "badhandshake" {
@@ -124,7 +145,14 @@ func runOneKill(c killCase, tmpBase string, idx int) (sx.V, sx.V) {
 	oneKill := func() {
 		done := make(chan struct{})
 		go func() {
-			defer func() { recover(); close(done) }()
+			defer func() {
+				if r := recover(); r != nil {
+					mu.Lock()
+					okAll = false // Kill panicked
+					mu.Unlock()
+				}
+				close(done)
+			}()
 			if c.Pattern == "cleanup" {
 				plugin.CleanupClients()
 			} else {
@@ -226,3 +254,17 @@ func runKill(o opts) error {
 	}
 	return nil
 }
+
+// failingRunner: a custom runner whose Start fails (nothing is ever launched).
+type failingRunner struct{}
+
+func (failingRunner) Start(context.Context) error                      { return errors.New("runner cannot start") }
+func (failingRunner) Wait(context.Context) error                       { return nil }
+func (failingRunner) Kill(context.Context) error                       { return nil }
+func (failingRunner) Stdout() io.ReadCloser                            { return io.NopCloser(strings.NewReader("")) }
+func (failingRunner) Stderr() io.ReadCloser                            { return io.NopCloser(strings.NewReader("")) }
+func (failingRunner) Name() string                                     { return "failing-runner" }
+func (failingRunner) ID() string                                       { return "failing-runner-1" }
+func (failingRunner) Diagnose(context.Context) string                  { return "" }
+func (failingRunner) PluginToHost(n, a string) (string, string, error) { return n, a, nil }
+func (failingRunner) HostToPlugin(n, a string) (string, string, error) { return n, a, nil }
